@@ -144,16 +144,24 @@ impl Parser {
                                 break;
                             }
 
-                            if let Ok(Some(field)) = self.parse_expr() {
-                                fields.push(field);
+                            let index_before = self.index;
+                            match self.parse_expr() {
+                                Ok(Some(field)) => fields.push(field),
+                                // a token that cannot start an expression would be looked at forever
+                                Err(err) if self.index <= index_before => return Err(err),
+                                _ => {}
                             }
                         }
                     }
                 }
                 Some(Lexem::Open) | Some(Lexem::CurlyOpen) => {
                     self.drop_lexem();
-                    if let Ok(Some(field)) = self.parse_expr() {
-                        fields.push(field);
+
+                    let index_before = self.index;
+                    match self.parse_expr() {
+                        Ok(Some(field)) => fields.push(field),
+                        Err(err) if self.index <= index_before => return Err(err),
+                        _ => {}
                     }
                 }
                 _ => {
